@@ -12,7 +12,7 @@ Layers
                 read, then reads (real loop, wall-clock watchdog -> Inconclusive).
 
 A case is a list of *steps*; the operations of one step are applied back to back inside one loop iteration, then
-the loop runs `2 + gap` iterations and the oracle looks at every sender.
+the loop runs a few (2-4) + `gap` iterations and the oracle looks at every sender.
 """
 
 from __future__ import annotations
@@ -20,6 +20,7 @@ from __future__ import annotations
 import asyncio
 import errno as _errno
 import logging
+import os
 import socket as _socket
 import threading
 import time
@@ -418,10 +419,11 @@ def run_transport(case: dict) -> Outcome:
                     if rec["bufsize_at_return"]:
                         stats["bufsize_nonzero_at_return"] = True
                     if rec["handed_at_return"] < end:
+                        missing = min(end - rec["handed_at_return"], entry["len"])
                         raise Violation(
                             "backpressure",
-                            f"{where}: stream sender #{j} returned with {end - rec['handed_at_return']} of its {entry['len']} bytes still in the "
-                            f"user-space buffer (get_write_buffer_size() == {rec['bufsize_at_return']} at return)",
+                            f"{where}: stream sender #{j} returned although {missing} of its {entry['len']} bytes had not been handed to the kernel "
+                            f"(get_write_buffer_size() == {rec['bufsize_at_return']} at return, connection lost: {tr.connection_lost_called})",
                             sender=j,
                             flavour=flavour,
                         )
@@ -475,7 +477,9 @@ def run_transport(case: dict) -> Outcome:
                         r["cancel"] = True
                 else:
                     raise HarnessError(f"unknown op {op!r}")
-            await _ticks(2 + step["gap"])
+            # a sender started with create_task writes in the 1st iteration; if that write kills the connection,
+            # connection_lost is delivered in the 2nd and the parked senders run in the 3rd
+            await _ticks(4 + step["gap"])
             verify(f"after step {si}")
 
         # quiescence
@@ -487,7 +491,7 @@ def run_transport(case: dict) -> Outcome:
             else:
                 tr.kernel_slots = None
             for _ in range(200):
-                if not tr.get_write_buffer_size() or tr.connection_lost_called:
+                if not tr.wants_write() or tr.connection_lost_called:
                     break
                 tr.drain(None)
                 await _ticks(1)
@@ -495,11 +499,13 @@ def run_transport(case: dict) -> Outcome:
                 raise HarnessError("fake transport never drained")
         else:
             lose(None if case["finale"] == "lost" else case["finale"])
-        await _ticks(3)
+        await _ticks(4)
         verify("at quiescence", quiescent=True)
         # teardown (also finishes pending aclose() calls)
         aclose_tasks.append(loop.create_task(adapter.aclose()))
         await _ticks(4)
+        if not tr.connection_lost_called:
+            raise HarnessError("the fake transport did not deliver connection_lost() at teardown")
         for t in aclose_tasks:
             if not t.done():
                 raise Violation("stranded", "aclose() is still pending after the connection was lost / flushed", flavour=flavour)
@@ -532,11 +538,18 @@ def _st_transport(flavours: list[str]):  # type: ignore[no-untyped-def]
             sizes = [1, 2, 5, 16, 17, 64, 100]
         else:
             capacity = draw(st.sampled_from([0, 0, 1, 2]))
-            sizes = [1, 1000, 30000, 40000, 40000, 65000, 65536]
+            sizes = [1, 1000, 30000, 40000, 40000, 65000, 65507, 65507]
         steps = []
         nsend = 0
         lost = closed = False
-        budget = draw(st.integers(3, 10 if tier == "quick" else 14))
+        budget = draw(st.integers(4, 10 if tier == "quick" else 14))
+        if draw(st.integers(0, 2)) > 0:
+            # most schedules start with a few senders hitting a peer that does not read
+            k = draw(st.integers(2, 3)) + (0 if stream else 1)
+            big = sizes[-3:] if not stream else sizes
+            steps.append({"ops": [["send", draw(st.sampled_from(big))] for _ in range(k)], "gap": draw(st.sampled_from([0, 0, 1]))})
+            nsend = k
+            budget -= k
         while budget > 0:
             nops = min(budget, draw(st.sampled_from([1, 1, 2, 2, 3])))
             ops: list[list] = []
@@ -601,9 +614,17 @@ def _st_transport(flavours: list[str]):  # type: ignore[no-untyped-def]
 # layer "real": a real socketpair whose peer does not read
 
 
+# On CPython 3.12.1 `_SelectorSocketTransport.writelines()` does not call `_maybe_pause_protocol()`, so
+# `send_all_from_iterable()` over a real socket returns while its data is still in the user-space buffer
+# (replays/found/C20-6f70cf9c30f6.json; run with C20_INCLUDE_WRITELINES=1).  Excluded by construction so that the search continues past it.
+EXCLUDE_WRITELINES_STDLIB = os.environ.get("C20_INCLUDE_WRITELINES") != "1"
+
+
 def run_real(case: dict) -> Outcome:
     from easynetwork.lowlevel.api_async.backend._asyncio.backend import AsyncIOBackend
 
+    if case.get("api") == "iterable" and EXCLUDE_WRITELINES_STDLIB:
+        return Outcome(nontrivial=False, classes=("excluded-writelines-stdlib",))
     size = case["size"]
     nsends = case["nsends"]
     watchdog = 60.0
@@ -623,7 +644,12 @@ def run_real(case: dict) -> Outcome:
 
             async def send_all() -> None:
                 for i in range(nsends):
-                    await transport.send_all(bytes([65 + i]) * chunk)
+                    data = bytes([65 + i]) * chunk
+                    if case.get("api") == "iterable":
+                        step = chunk // 16
+                        await transport.send_all_from_iterable([data[o : o + step] for o in range(0, chunk, step)])
+                    else:
+                        await transport.send_all(data)
                     progress["returned"] += 1
                     progress["bufsizes"].append(aio_transport.get_write_buffer_size())
 
@@ -695,7 +721,7 @@ def run_real(case: dict) -> Outcome:
         raise Violation("backpressure", f"get_write_buffer_size() at send_all() return: {result['bufsizes']}")
     if result["received"] != chunk * nsends or not result["content_ok"]:
         raise Violation("bytes-missing", f"peer received {result['received']} of {chunk * nsends} bytes (content ok: {result['content_ok']})")
-    return Outcome(nontrivial=True, classes=(f"nsends-{nsends}", f"peak-buffer-{'full' if result['peak_buffer'] >= chunk // 2 else 'partial'}"))
+    return Outcome(nontrivial=True, classes=(f"api-{case.get('api', 'send_all')}", f"nsends-{nsends}", f"peak-buffer-{'full' if result['peak_buffer'] >= chunk // 2 else 'partial'}"))
 
 
 def st_real(tier: str):  # type: ignore[no-untyped-def]
@@ -705,6 +731,7 @@ def st_real(tier: str):  # type: ignore[no-untyped-def]
             "nsends": st.sampled_from([1, 2, 8]),
             "iterations": st.sampled_from([50, 100, 200]),
             "sndbuf": st.sampled_from([0, 65536]),
+            "api": st.sampled_from(["send_all", "send_all", "send_all", "iterable"]),
         }
     )
 
@@ -715,7 +742,7 @@ CHECK = Check(
     id="C20",
     level="exploration",
     rule=(
-        "case = list of steps (operations applied inside one loop iteration, then 2+gap iterations): flow layer ops = "
+        "case = list of steps (operations applied inside one loop iteration, then a few + gap iterations): flow layer ops = "
         "pause_writing/resume_writing/connection_lost(exc|None)/drain()/cancel(j)/is_closing flag on WriteFlowControl vs a waiter-set "
         "model; stream/datagram layer ops = sender j send_all(n)/send_all_from_iterable/send/send_to, peer reads k, writable "
         "notification, connection loss (with/without exception, or failing kernel send), aclose, cancel sender j, over "
@@ -728,12 +755,13 @@ CHECK = Check(
         Layer("flow", st_flow, run_flow, {"quick": 1500, "thorough": 6000}),
         Layer("stream", _st_transport(["stream"]), run_transport, {"quick": 1200, "thorough": 5000}),
         Layer("datagram", _st_transport(["endpoint", "listener"]), run_transport, {"quick": 800, "thorough": 3000}),
-        Layer("real", st_real, run_real, {"quick": 6, "thorough": 18}, shards=1, case_timeout_s=200.0),
+        Layer("real", st_real, run_real, {"quick": 8, "thorough": 24}, shards=1, case_timeout_s=200.0),
     ],
     assumptions=[
         "the asyncio selector transports are replaced by pbt/fakeasyncio.py (same callback order and water-mark code, harness-driven kernel pipe); "
-        "its writelines() pauses the protocol like CPython >= 3.12.4 does — on this 3.12.1 interpreter the real selector transport's writelines() "
-        "never calls _maybe_pause_protocol(), a stdlib defect outside the library",
+        "its writelines() pauses the protocol like write() does; on this 3.12.1 interpreter the real selector transport's writelines() never calls "
+        "_maybe_pause_protocol(), so send_all_from_iterable() on a real socket returns with the data still in user space — that shape is excluded "
+        "from the real layer behind EXCLUDE_WRITELINES_STDLIB (counted as class excluded-writelines-stdlib; C20_INCLUDE_WRITELINES=1 re-enables it)",
         "with several concurrent senders 'its bytes have been handed to the OS' is judged per sender from the transport's write log "
         "(get_write_buffer_size()==0 at return is the single-sender special case and is what the real layer checks)",
         "datagram transports keep asyncio's default 64 KiB high-water mark: a datagram sender is only required to stay parked while its own "
